@@ -40,7 +40,7 @@ type ListCase struct {
 }
 
 const listRule = "case = 2-3 lists (zero value or New()) x <=60 ops PushFront/PushBack/InsertBefore/InsertAfter/Remove/MoveToFront/" +
-	"MoveToBack/MoveBefore/MoveAfter/PushBackList/PushFrontList (other list or itself)/Init/Front/Back/Len, plus by-value copies of zero-value lists that were only read so far, executed in lock-step on " +
+	"MoveToBack/MoveBefore/MoveAfter/PushBackList/PushFrontList (other list or itself)/Init/Front/Back/Len, plus by-value copies of zero-value lists that were only read so far and by-value copies of used lists that are re-initialised with Init() at once (an independent empty list; the original keeps its elements), executed in lock-step on " +
 	"lists.List[any] and container/list through parallel handle tables (handle 0 = foreign unattached &Element{}); handles are picked from the " +
 	"whole table (own list, other list, removed, unattached) or, by selector, among the receiver's elements; after EVERY op: return values, " +
 	"Len, capped forward and backward traversals of every list mapped to handle indices, and Next/Prev/Value of every handle must agree; a panic " +
@@ -547,6 +547,23 @@ func RunList(c ListCase) pbt.Outcome {
 			s.tl[l], s.sl[l] = &nt, &ns
 			labels.add("zero-list-copied-by-value")
 			continue
+		case "copyinit":
+			// list m is replaced by a by-value COPY of the used list l that is re-initialised with Init() at once: with
+			// container/list that is an independent empty list, and the original keeps its elements
+			m := mod(op.M, len(s.tl))
+			if m == l {
+				continue
+			}
+			desc = fmt.Sprintf("list%d = copy of list%d by value; list%d.Init()", m, l, m)
+			for _, h := range s.fwd[m] {
+				s.stale[h] = true // the old list m is abandoned with its elements
+			}
+			nt, ns := *s.tl[l], *s.sl[l]
+			s.tl[m], s.sl[m] = &nt, &ns
+			tRun, sRun = func() { nt.Init(); tN = nt.Len() }, func() { ns.Init(); sN = ns.Len() }
+			returns = "int"
+			s.virgin[m] = false
+			labels.add("used-list-copied-by-value-and-reinitialised")
 		case "front":
 			desc = fmt.Sprintf("list%d.Front()", l)
 			tRun, sRun = func() { tE = tl.Front() }, func() { sE = sl.Front() }
@@ -658,7 +675,7 @@ var listKinds = func() []string {
 		k string
 		n int
 	}{{"pushf", 9}, {"pushb", 9}, {"insb", 7}, {"insa", 7}, {"rem", 10}, {"mtf", 6}, {"mtb", 6}, {"mvb", 9}, {"mva", 9},
-		{"pbl", 5}, {"pfl", 5}, {"init", 2}, {"front", 2}, {"back", 2}, {"len", 2}, {"copyzero", 2}}
+		{"pbl", 5}, {"pfl", 5}, {"init", 2}, {"front", 2}, {"back", 2}, {"len", 2}, {"copyzero", 2}, {"copyinit", 2}}
 	var r []string
 	for _, x := range w {
 		for i := 0; i < x.n; i++ {
